@@ -71,6 +71,12 @@ def all_true(funcs):
     return result
 
 
+def _as_double(threshold):
+    # A numpy scalar narrower than a double (e.g. 3 * image.std() of a float32
+    # image) would make the comparisons below run in that precision
+    return float(threshold) if isinstance(threshold, np.floating) else threshold
+
+
 def min_delta(delta):
     """
     Minimum delta criteria
@@ -81,6 +87,8 @@ def min_delta(delta):
         The minimum height of a leaf above its merger level
 
     """
+    delta = _as_double(delta)
+
     def result(structure, index=None, value=None):
         if value is None:
             if structure.parent is not None:
@@ -100,6 +108,8 @@ def min_sum(sum):
     sum : float
         The minimum sum of the pixel values in a leaf
     """
+    sum = _as_double(sum)
+
     def result(structure, index=None, value=None):
         return np.nansum(structure.values()) >= sum
     return result
@@ -114,6 +124,8 @@ def min_peak(peak):
     peak : float
         The minimum peak pixel value in a leaf
     """
+    peak = _as_double(peak)
+
     def result(structure, index=None, value=None):
         return structure.vmax >= peak
     return result
